@@ -49,6 +49,22 @@ fn copy_atomic(src: &Path, dst: &Path) -> std::io::Result<()> {
     let mut tmp = dst.as_os_str().to_owned();
     tmp.push(".copia-tmp");
     let tmp = PathBuf::from(tmp);
+    // A symlink is a version in its own right (fingerprinted by its target string):
+    // deliver the link itself, never a copy of whatever it points at - and never
+    // write through a link left at the staging name by an interrupted run.
+    #[cfg(unix)]
+    {
+        let is_link = |p: &Path| {
+            std::fs::symlink_metadata(p).is_ok_and(|m| m.file_type().is_symlink())
+        };
+        if is_link(&tmp) {
+            std::fs::remove_file(&tmp)?;
+        }
+        if is_link(src) {
+            std::os::unix::fs::symlink(std::fs::read_link(src)?, &tmp)?;
+            return std::fs::rename(&tmp, dst);
+        }
+    }
     std::fs::copy(src, &tmp)?;
     // Flush the delivered bytes before the file can be named, so the archive
     // (fsynced when it is written) never describes data that is not yet stable.
